@@ -1,7 +1,7 @@
 (* C02 property theorems. This file contains only statements closed by
    [exact lemma] and Print Assumptions. *)
 From V Require Import Common.Base C02.Graph C02.Order C02.SpecESM C02.Wrap C02.Resolve C02.ResolveSpec
-  C02.DataUrl C02.SpecDataUrl C02.OrderProofs C02.OrderEsmProofs C02.ResolveProofs C02.WrapProofs C02.DataUrlProofs C02.ClassifyProofs C02.Emit C02.EmitProofs C02.ResolveChainProofs C02.ScanEsmProofs C02.ResolveDen C02.SpecDenProofs C02.StarHitsProofs C02.StarDenProofs C02.LinkDenProofs C02.ResolveStarsProofs C02.EvalOrder C02.EvalOrderProofs.
+  C02.DataUrl C02.SpecDataUrl C02.OrderProofs C02.OrderEsmProofs C02.ResolveProofs C02.WrapProofs C02.DataUrlProofs C02.ClassifyProofs C02.Emit C02.EmitProofs C02.ResolveChainProofs C02.ScanEsmProofs C02.ResolveDen C02.SpecDenProofs C02.StarHitsProofs C02.StarDenProofs C02.LinkDenProofs C02.ResolveStarsProofs C02.EvalOrder C02.EvalOrderProofs C02.WrapMinProofs C02.WrapGraph C02.WrapExactProofs.
 From Coq Require Import Permutation.
 
 (* every file of the chunk is emitted at most once ("every module body runs at most once") *)
@@ -294,3 +294,42 @@ Theorem dataurl_shortest_roundtrip : forall (b64enc : bytes -> bytes) (b64dec : 
   data_url_value b64dec (encode_shortest b64enc mime text) = Some text.
 Proof. exact shortest_roundtrip_all. Qed.
 Print Assumptions dataurl_shortest_roundtrip.
+
+(* wrap minimality, the converse of wrap_closed: after scanImportsAndExports steps 1-2 a file is
+   wrapped only if its exports kind is CommonJS, or it is the target of a require() / import() record
+   of a reachable file, or it is imported by a wrapped file *)
+Theorem wrap_minimal : forall g order keep_esm fmt st,
+  scan_steps12 fmt keep_esm g order = Some st ->
+  forall s, wrapped st s ->
+    kind_of st s = ECJS \/ req_dyn g order s \/ exists p, wrapped st p /\ In s (all_targets (getm g p)).
+Proof. exact wrap_minimal_all. Qed.
+Print Assumptions wrap_minimal.
+
+(* both directions together: for a reachable file of the graph other than the runtime and other
+   than an entry point of a cjs-format build (whose CommonJS body is the bundle's top level),
+   being wrapped is exactly: CommonJS, or required / dynamically imported by a reachable file, or
+   imported by a reachable wrapped file.  [targets_ok]: the reachable files import only reachable
+   files of the graph and never the runtime (checked on every real case) *)
+Theorem wrap_exact : forall g order keep_esm fmt st,
+  scan_steps12 fmt keep_esm g order = Some st -> targets_ok g order = true ->
+  forall s, In s order -> s <> 0%nat -> (s < length g)%nat ->
+    (m_entry (getm g s) = false \/ fmt = true) ->
+    (wrapped st s <->
+     kind_of st s = ECJS \/ req_dyn g order s \/
+     exists p, In p order /\ p <> 0%nat /\ (p < length g)%nat /\ wrapped st p /\ In s (all_targets (getm g p))).
+Proof. exact wrap_exact_all. Qed.
+Print Assumptions wrap_exact.
+
+(* mixed_order_is_native without its hypothesis, for the graphs classified by the model: the wrap
+   flags computed by steps 1-2 are consistent, so the bundle's evaluation order is the native one *)
+Theorem wrap_consistent_of_classified : forall g order keep_esm fmt st,
+  scan_steps12 fmt keep_esm g order = Some st -> targets_ok g order = true ->
+  wrap_consistent (egraph_of g order st) = true.
+Proof. exact consistent_of_scan. Qed.
+Print Assumptions wrap_consistent_of_classified.
+
+Theorem classified_mixed_order_is_native : forall g order keep_esm fmt st,
+  scan_steps12 fmt keep_esm g order = Some st -> targets_ok g order = true ->
+  forall entry, bundle_trace (egraph_of g order st) entry = native_trace (egraph_of g order st) entry.
+Proof. exact classified_order_is_native. Qed.
+Print Assumptions classified_mixed_order_is_native.
